@@ -53,10 +53,19 @@ func (h *hooked) Check(ent Entry, ce *CheckedEntry) *CheckedEntry {
 	// Let the wrapped Core decide whether to log this message or not. This
 	// also gives the downstream a chance to register itself directly with the
 	// CheckedEntry.
-	if downstream := h.Core.Check(ent, ce); downstream != nil {
+	//
+	// Run the hooks only if the wrapped Core (or one of its descendants)
+	// actually signed up for this entry: inside a Tee, ce may already be
+	// non-nil because a sibling Core accepted the entry.
+	before := 0
+	if ce != nil {
+		before = len(ce.cores)
+	}
+	downstream := h.Core.Check(ent, ce)
+	if downstream != nil && len(downstream.cores) > before {
 		return downstream.AddCore(ent, h)
 	}
-	return ce
+	return downstream
 }
 
 func (h *hooked) With(fields []Field) Core {
